@@ -4,6 +4,7 @@ import (
 	"fmt"
 	"go/types"
 	"path"
+	"sort"
 	"strconv"
 	"strings"
 
@@ -226,6 +227,35 @@ func (x *Exec) intrinsic(fn *ssa.Function, args []Val, site string) Val {
 		return SliceV{A: a, Len: n, Cap: n}
 	case "Symbolic":
 		return cbool(true)
+	case "Concretize":
+		// pick one model for the bytes of s and fix it on this path (one representative input)
+		sv := args[0].(StrV)
+		var terms []string
+		for _, b := range sv.B {
+			if !b.Con {
+				terms = append(terms, b.T)
+			}
+		}
+		if len(terms) == 0 {
+			return sv
+		}
+		sat, vals := x.sol.checkModel("", terms)
+		if !sat {
+			panic(abortPath{"infeasible"})
+		}
+		out := StrV{B: make([]BV, len(sv.B))}
+		k := 0
+		for i, b := range sv.B {
+			if b.Con {
+				out.B[i] = b
+				continue
+			}
+			u, _ := smtValToInt(vals[k])
+			k++
+			out.B[i] = cbv(8, u)
+			x.sol.send(fmt.Sprintf("(assert (= %s (_ bv%d 8)))", b.T, u&0xff))
+		}
+		return out
 	}
 	panic(unsupported{"nd function " + name})
 }
@@ -313,6 +343,12 @@ func (x *Exec) sprintf(format Val, rest []Val) Val {
 			}
 		case nil:
 			nat[i] = nil
+		case OpaqueV:
+			if v.F != nil {
+				nat[i] = *v.F
+			} else {
+				allConc = false
+			}
 		default:
 			if iv.T == nil {
 				nat[i] = nil
@@ -497,6 +533,14 @@ func (x *Exec) stub(fn *ssa.Function, args []Val, site string) (Val, bool) {
 		return PtrV{C: &Cell{V: args[0]}}, true
 	case "log.New":
 		return PtrV{}, true
+	case "os.ReadFile":
+		// environment stub: the file named p contains "F:"+p (harnesses create exactly that natively)
+		p, ok := args[0].(StrV).concrete()
+		if !ok {
+			panic(unsupported{"os.ReadFile symbolic path"})
+		}
+		x.stubsUsed["os.ReadFile (file p contains \"F:\"+p)"] = true
+		return TupleV{x.convert(cstr("F:"+p), types.Typ[types.String], types.NewSlice(types.Typ[types.Byte])), IfaceV{}}, true
 	case "os.Exit":
 		panic(abortPath{"os.Exit"})
 	case "path.Join":
@@ -510,6 +554,24 @@ func (x *Exec) stub(fn *ssa.Function, args []Val, site string) (Val, bool) {
 			ss[i] = s
 		}
 		return cstr(path.Join(ss...)), true
+	case "strconv.ParseFloat":
+		if str, ok := args[0].(StrV).concrete(); ok {
+			bits, _ := concI(args[1])
+			fv, err := strconv.ParseFloat(str, bits)
+			if err != nil {
+				return TupleV{OpaqueV{Kind: "float", Key: "0"}, x.opaqueErr()}, true
+			}
+			return TupleV{OpaqueV{Kind: "float", Key: "f:" + strconv.FormatFloat(fv, 'g', -1, 64), F: &fv}, IfaceV{}}, true
+		}
+		// symbolic text: fork over every feasible text (at most 128), then compute natively
+		x.stubsUsed["strconv.ParseFloat (native, text concretised by forking over feasible values)"] = true
+		str := x.concStr(args[0].(StrV), 128, "ParseFloat argument")
+		bits, _ := concI(args[1])
+		fv, err := strconv.ParseFloat(str, bits)
+		if err != nil {
+			return TupleV{OpaqueV{Kind: "float", Key: "0"}, x.opaqueErr()}, true
+		}
+		return TupleV{OpaqueV{Kind: "float", Key: "f:" + strconv.FormatFloat(fv, 'g', -1, 64), F: &fv}, IfaceV{}}, true
 	case "strconv.FormatBool":
 		b := args[0].(BoolV)
 		if x.branch(b) {
@@ -612,4 +674,101 @@ func (x *Exec) redirectApplies(fn *ssa.Function, args []Val) bool {
 		}
 	}
 	return x.w.alwaysRedirect[fn.String()]
+}
+
+// concStr concretises a symbolic string by forking over all its feasible values (solver-enumerated).
+func (x *Exec) concStr(sv StrV, limit int, what string) string {
+	if c, ok := sv.concrete(); ok {
+		return c
+	}
+	var terms []string
+	var idx []int
+	for i, b := range sv.B {
+		if !b.Con {
+			terms = append(terms, b.T)
+			idx = append(idx, i)
+		}
+	}
+	mk := func(vals []uint64) string {
+		p := make([]string, len(terms))
+		for i := range terms {
+			p[i] = fmt.Sprintf("(= %s (_ bv%d 8))", terms[i], vals[i]&0xff)
+		}
+		if len(p) == 1 {
+			return p[0]
+		}
+		return "(and " + strings.Join(p, " ") + ")"
+	}
+	build := func(vals []uint64) string {
+		b := make([]byte, len(sv.B))
+		k := 0
+		for i, bv := range sv.B {
+			if bv.Con {
+				b[i] = byte(bv.C)
+			} else {
+				b[i] = byte(vals[k])
+				k++
+			}
+		}
+		return string(b)
+	}
+	d := len(x.decisions)
+	if d < len(x.prefix) {
+		// replay: the decision encodes the chosen bytes base 256
+		code := x.prefix[d]
+		x.decisions = append(x.decisions, code)
+		vals := make([]uint64, len(terms))
+		for i := len(terms) - 1; i >= 0; i-- {
+			vals[i] = uint64(code & 0xff)
+			code >>= 8
+		}
+		x.sol.send("(assert " + mk(vals) + ")")
+		return build(vals)
+	}
+	if len(terms) > 7 {
+		panic(unsupported{"concretisation of " + what + ": more than 7 symbolic bytes"})
+	}
+	var all [][]uint64
+	x.sol.send("(push)")
+	for {
+		sat, mv := x.sol.checkModel("", terms)
+		x.count("concretise", sat)
+		if !sat {
+			break
+		}
+		vals := make([]uint64, len(terms))
+		for i := range mv {
+			u, ok := smtValToInt(mv[i])
+			if !ok {
+				x.sol.send("(pop)")
+				panic(solverUnknown{"cannot parse " + mv[i]})
+			}
+			vals[i] = u
+		}
+		all = append(all, vals)
+		if len(all) > limit {
+			x.sol.send("(pop)")
+			panic(unsupported{fmt.Sprintf("concretisation of %s: more than %d feasible values", what, limit)})
+		}
+		x.sol.send("(assert (not " + mk(vals) + "))")
+	}
+	x.sol.send("(pop)")
+	if len(all) == 0 {
+		panic(abortPath{"infeasible"})
+	}
+	code := func(vals []uint64) int {
+		c := 0
+		for _, v := range vals {
+			c = c<<8 | int(v&0xff)
+		}
+		return c
+	}
+	sort.Slice(all, func(i, j int) bool { return code(all[i]) < code(all[j]) })
+	for _, v := range all[1:] {
+		p := append(append(make([]int, 0, len(x.decisions)+1), x.decisions...), code(v))
+		x.newWork = append(x.newWork, p)
+	}
+	x.decisions = append(x.decisions, code(all[0]))
+	x.sol.send("(assert " + mk(all[0]) + ")")
+	return build(all[0])
 }
